@@ -245,8 +245,25 @@ def server_scenario(r, length=None, small=False):
         else:
             events.append((t, (1, ev[1])))
     events = [e for e in events if e[0] < end]
+    events = defer_some_api(r, events)
     draws = draws * 8 if draws and len(set(draws)) == 1 else draws
     return dict(cfg=tuple(cfg), insts=insts, draws=draws, events=events, end=end, rev=r.random() < 0.3, fuel=20000)
+
+
+def defer_some_api(r, events, p=0.15):
+    """An application call that is the only call of its instant is made, now and then, one to three loop iterations INTO the
+    instant (ApiSoon, codes 22-24): behind whatever the datagrams of that instant trigger."""
+    napi = {}
+    for t, ev in events:
+        if ev[0] == 1:
+            napi[t] = napi.get(t, 0) + 1
+    out = []
+    for t, ev in events:
+        if ev[0] == 1 and t > 0 and napi[t] == 1 and ev[1][0] < 22 and r.random() < p:
+            out.append((t, (1, [r.choice([22, 23, 24]), ev[1]])))
+        else:
+            out.append((t, ev))
+    return out
 
 
 EGS = [
